@@ -112,11 +112,17 @@ def gen_spec(rng, big_ok: bool) -> dict:
             pool = BIG
             bigs += 1
         inits.append(mem_init(rng, nm, sub, rng.choice(pool)))
+    owners = [it for it in inits if it["kind"] in ("M", "E")]
+    if owners and rng.random() < 0.2:  # one tensor object shared by two initializers
+        o = rng.choice(owners)
+        inits.append({"name": f"alias{len(inits)}", "sub": max(o["sub"], rng.choice([0, 0, 1, 3])), "kind": "A", "of": o["name"]})
     for it in inits:  # where else the initializer's Value appears in its graph (must not matter to the save)
         it["is_input"] = 1 if rng.random() < 0.25 else 0
         it["used"] = 1 if rng.random() < 0.3 else 0
         it["is_output"] = 1 if rng.random() < 0.12 else 0
-        if it["kind"] == "M" and it["np"] and rng.random() < 0.15:
+        if it["kind"] == "M" and it.get("np") and not it.get("lazy") and it["len"] <= 256 and rng.random() < 0.1:
+            it["tname_differs"] = 1
+        if it["kind"] == "M" and it.get("np") and rng.random() < 0.15:
             it["lazy"] = 1
     spec["inits"] = sorted(inits, key=lambda it: it["sub"])
     return spec
@@ -157,6 +163,21 @@ def pred_dest_ref(spec: dict) -> bool:
     return data_rel in present and any(it["kind"] == "E" and it["file"] == data_rel for it in spec["inits"])
 
 
+def pred_dest_alias(spec: dict) -> bool:
+    """D1, aliased: a tensor object external in the destination file is the const_value of two initializers."""
+    data_rel = L.join(spec.get("dir", ""), spec["name"]) + ".data"
+    dest_names = {it["name"] for it in spec["inits"] if it["kind"] == "E" and it["file"] == data_rel}
+    return any(it["kind"] == "A" and it["of"] in dest_names for it in spec["inits"])
+
+
+def pred_rename(spec: dict) -> bool:
+    """D4: an in-memory tensor of <= 256 bytes (kept inline, so the ORIGINAL object is serialized) whose `name` differs from
+    the name of an initializer holding it (constructed that way, or shared by two initializers)."""
+    small = {it["name"] for it in spec["inits"] if it["kind"] == "M" and it["len"] <= 256}
+    return any((it["kind"] == "M" and it["len"] <= 256 and it.get("tname_differs")) or
+               (it["kind"] == "A" and it["of"] in small) for it in spec["inits"])
+
+
 def pred_sub_uninit(spec: dict) -> bool:
     """F2: the only uninitialized initializers live in sub-graphs (the guard looks at the main graph only)."""
     us = [it for it in spec["inits"] if it["kind"] == "U"]
@@ -194,7 +215,9 @@ def oracle(spec: dict, k, r: dict) -> list[tuple[str, str]]:
     if a["heap"] != b["heap"]:
         out.append(("unchanged", f"tensor objects changed: before {b['heap']} after {a['heap']}"))
     if a["graph"] != b["graph"]:
-        out.append(("unchanged", "graph structure changed"))
+        strip = lambda g: [ln.rsplit(", ", 1)[0] if ln.startswith(" I ") else ln for ln in g.split("\n")]
+        out.append(("unchanged", "graph structure changed" if strip(a["graph"]) != strip(b["graph"])
+                    else "graph structure same but tensor names changed"))
     if r["res"] == "ok":
         data_rel = L.join(spec.get("dir", ""), spec["name"]) + ".data"
         if data_rel not in a["files"]:
@@ -218,11 +241,15 @@ def oracle(spec: dict, k, r: dict) -> list[tuple[str, str]]:
     return out
 
 
-def classify(spec: dict, clause: str) -> str | None:
+def classify(spec: dict, clause: str, detail: str = "") -> str | None:
     if clause in ("guard", "roundtrip") and pred_sub_uninit(spec):
         return "C20-D2"
+    if clause == "unchanged" and detail.endswith("tensor names changed") and pred_rename(spec):
+        return "C20-D4"
     if clause == "unchanged" and pred_dest_ref(spec):
         return "C20-D1"
+    if clause == "roundtrip" and pred_dest_ref(spec) and pred_dest_alias(spec):
+        return "C20-D1"  # the shared object is invalidated by its first materialisation, the second one raises
     return None
 
 
@@ -264,6 +291,11 @@ def check_spec(drv, spec: dict, deep: int, stats: Counter, ks=None):
     stats["fault_points"] += n + 1
     for it in spec["inits"]:
         key = it["kind"]
+        if key == "A":
+            src = next(x for x in spec["inits"] if x["name"] == it["of"])
+            stats["init_A_of_" + src["kind"]] += 1
+            stats["init_A"] += 1
+            continue
         if key == "M":
             key += "_np" if it["np"] else "_raw"
             key += "_small" if it["len"] <= 256 else ("_big" if it["len"] > MIB else "_mid")
@@ -333,9 +365,9 @@ def main(run: core.Run) -> None:
         for s, k, d, c in props:
             print(f"REPLAY property[{c}] k={k}: {d}")
         open_ids = {f["id"] for f in run.open_findings()}
-        bad = [(s, k, d, c) for s, k, d, c in props if classify(s, c) not in open_ids]
+        bad = [(s, k, d, c) for s, k, d, c in props if classify(s, c, d) not in open_ids]
         for s, k, d, c in props:
-            fid = classify(s, c)
+            fid = classify(s, c, d)
             if fid in open_ids:
                 run.known(fid, f"k={k}: {d[:200]}")
         if bad:
@@ -391,7 +423,7 @@ def main(run: core.Run) -> None:
     known_counts: Counter = Counter()
     failures = []
     for spec, k, detail, clause in all_props:
-        fid = classify(spec, clause)
+        fid = classify(spec, clause, detail)
         if fid and fid in findings:
             known_counts[fid] += 1
             if known_counts[fid] == 1:
@@ -420,7 +452,7 @@ def main(run: core.Run) -> None:
             r0 = L.run_real(spec, None)
             for k in [None] + list(range(r0["calls"] + 1)):
                 r = r0 if k is None else L.run_real(spec, k)
-                bad = [(c, d) for c, d in oracle(spec, k, r) if classify(spec, c) not in findings]
+                bad = [(c, d) for c, d in oracle(spec, k, r) if classify(spec, c, d) not in findings]
                 if bad:
                     found = (spec, k, bad[0])
                     break
@@ -457,7 +489,7 @@ def main(run: core.Run) -> None:
         explanation="per case every fault point k in 0..N (N = file-system calls of the fault-free run) plus the fault-free run is "
         "executed on the real code and the model; the cases themselves are corpus + seeded random",
     )
-    need = ["init_U_is_input", "init_U_used", "init_U_is_output", "init_M_is_input", "init_E_is_input", "init_level_1",
+    need = ["init_A_of_M", "init_A_of_E", "init_U_is_input", "init_U_used", "init_U_is_output", "init_M_is_input", "init_E_is_input", "init_level_1",
             "init_level_2", "init_level_3", "init_lazy", "init_U_meta_none", "init_U_sub",
             "init_M_np_mid", "init_M_raw_mid", "init_E_other_mid", "init_E_dest_mid", "init_E_dest_small", "init_U_main",
             "init_zero_size", "init_scalar", "init_M_np_big", "verbose_1", "verbose_2", "style_rel", "dir_sub"]
